@@ -2463,6 +2463,16 @@ class sptensor:
                     else:
                         newsz.append(max([self.shape[n], max(key_n) + 1]))
                     m = m + 1
+            # Every slice must select exactly as many positions as the inserted
+            # tensor has in the corresponding mode (checked before anything changes)
+            m = 0
+            for n, key_n in enumerate(key):
+                if isinstance(key_n, slice):
+                    if len(range(newsz[n])[key_n]) != value.shape[m]:
+                        assert False, "RHS does not match range size"
+                    m = m + 1
+                elif not isinstance(key_n, (float, int, np.integer)):
+                    m = m + 1
             self.shape = tuple(int(sz) for sz in newsz)
 
             # Expand subs array if there are new modes, i.e., if the order
